@@ -138,7 +138,7 @@ fn apply_damage(bytes: &mut Vec<u8>, l: &Layout, d: &Damage) -> bool {
 
 fn opts_of(bits: u8) -> DoctorOptions { DoctorOptions { rebuild_time_index: bits & 1 != 0, rebuild_lex_index: bits & 2 != 0, rebuild_vec_index: bits & 4 != 0, vacuum: bits & 8 != 0, dry_run: bits & 16 != 0, quiet: true } }
 
-struct DocRun { status: u128, findings: Vec<u128>, phases: Vec<u128>, text: String }
+struct DocRun { status: u128, findings: Vec<u128>, phases: Vec<u128>, text: String, heal_ptr_executed: bool }
 
 fn run_doctor(path: &Path, bits: u8) -> DocRun {
     let p = path.to_path_buf();
@@ -150,10 +150,11 @@ fn run_doctor(path: &Path, bits: u8) -> DocRun {
             let phases: Vec<u128> = r.plan.phases.iter().map(|p| p.phase as u128).collect();
             let detail: Vec<String> = r.phases.iter().map(|p| format!("{:?}:{:?}", p.phase, p.status)).collect();
             let msgs: Vec<String> = r.findings.iter().map(|f| format!("{:?}: {}", f.code, f.message)).collect();
-            DocRun { status, findings, phases, text: format!("{:?} phases {:?} findings {:?}", r.status, detail, msgs) }
+            let heal_ptr_executed = r.phases.iter().any(|p| p.actions.iter().any(|a| matches!(a.action, memvid_core::types::DoctorActionKind::HealHeaderPointer) && matches!(a.status, memvid_core::types::DoctorActionStatus::Executed)));
+            DocRun { status, findings, phases, text: format!("{:?} phases {:?} findings {:?}", r.status, detail, msgs), heal_ptr_executed }
         }
-        Ok(Err(e)) => DocRun { status: 9, findings: vec![], phases: vec![], text: format!("doctor returned an error: {}", e) },
-        Err(_) => DocRun { status: 9, findings: vec![], phases: vec![], text: "doctor panicked".into() },
+        Ok(Err(e)) => DocRun { status: 9, findings: vec![], phases: vec![], text: format!("doctor returned an error: {}", e), heal_ptr_executed: false },
+        Err(_) => DocRun { status: 9, findings: vec![], phases: vec![], text: "doctor panicked".into(), heal_ptr_executed: false },
     }
 }
 
@@ -288,7 +289,8 @@ fn abstract_input(base: &Base, dmgs: &[Damage], bits: u8, same: bool) -> T {
         T::Tup(vec![T::N(ptr as u128), T::N(toc as u128), T::N(foot as u128), T::N(h as u128), T::N(s as u128), T::N(c as u128)]),
         T::Tup(vec![b(footer), b(tocbytes), b(true)]),
         T::Tup(vec![T::N(walk), T::L(pops)]),
-        T::Tup(vec![T::N(time), b(lex), T::N(vec), T::N(base.ref_nvec as u128)]),
+        // vectors the index holds once the READABLE pending records are applied (an unreadable log contributes none)
+        T::Tup(vec![T::N(time), b(lex), T::N(vec), T::N(if walk == 2 { l.toc.indexes.vec.as_ref().map_or(0, |m| m.vector_count) } else { base.ref_nvec } as u128)]),
         rows_term(&base.rows),
         T::Tup(vec![b(bits & 1 != 0), b(bits & 2 != 0), b(bits & 4 != 0), b(bits & 8 != 0), b(bits & 16 != 0)]),
         b(same),
@@ -318,7 +320,8 @@ fn one_case(base: &Base, dmgs: &[Damage], bits: u8, same: bool, w: &mut dyn std:
 
     // ---- property oracle (implementation only) ----
     let mut viol: Option<String> = None;
-    let class = |sym: &str| -> String { if stale { "stale-pointer-after-replay".into() } else if tocck { "toc-checksum-field".into() } else { sym.to_string() } };
+    // F-C21-1 (pointer damage + pending insert) was repaired by f76b325: a failure there is a plain violation again
+    let class = |sym: &str| -> String { if tocck { "toc-checksum-field".into() } else if stale { format!("{}(repaired-class stale-pointer-after-replay)", sym) } else { sym.to_string() } };
     let ctx = format!("[{}; damage {:?}; options time={} lex={} vec={} vacuum={} dry_run={}]", base.desc, dmgs, bits & 1 != 0, bits & 2 != 0, bits & 4 != 0, bits & 8 != 0, dry);
     if in_list {
         if dry {
@@ -330,7 +333,8 @@ fn one_case(base: &Base, dmgs: &[Damage], bits: u8, same: bool, w: &mut dyn std:
             let want2: &[u128] = if same && bits & 15 != 0 { &[0, 1] } else { &[0] };
             if !want2.contains(&r2.status) { viol.get_or_insert(format!("{}: the second doctor run ({}) reported {} {}", class("second-run-not-clean"), if same { "same options" } else { "default options" }, r2.text, ctx)); }
         }
-        match &opened {
+        // with two dry runs doctor never touched the file: what open does with the damage is not doctor's
+        if healing_run { match &opened {
             Err(e) => { viol.get_or_insert(format!("{}: the memory does not open after doctor: {} {}", class("open-failed"), e, ctx)); }
             Ok((t, _)) => {
                 for rr in base.ref_table.iter().filter(|x| x.status == 0) {
@@ -343,16 +347,16 @@ fn one_case(base: &Base, dmgs: &[Damage], bits: u8, same: bool, w: &mut dyn std:
                     }
                 }
             }
-        }
+        } }
     }
 
     // ---- output for the model ----
     let findings = T::L(r1.findings.iter().map(|x| T::N(*x)).collect());
     let phases = T::L(r1.phases.iter().map(|x| T::N(*x)).collect());
-    let out = if stale {
-        T::Tup(vec![T::N(99), findings, phases, b(false), T::N(99), b(false), T::none(), T::N(0)])
-    } else {
+    let out = {
         let (ok, rows, nv) = match &opened { Ok((t, nv)) => (true, T::some(rows_term(t)), *nv), Err(_) => (false, T::none(), 0) };
+        // two dry runs on a damaged vector index: the count is open's own doing (C14), not compared (Corr/C21.v)
+        let nv = if !healing_run && dmgs.contains(&Damage::VecZero) { 0 } else { nv };
         T::Tup(vec![T::N(r1.status), findings, phases, b(vpass), T::N(r2.status), b(ok), rows, T::N(nv as u128)])
     };
     let mut tags: Vec<String> = dmgs.iter().map(|d| format!("damage:{}", d.name())).collect();
@@ -362,6 +366,9 @@ fn one_case(base: &Base, dmgs: &[Damage], bits: u8, same: bool, w: &mut dyn std:
     tags.push(format!("status1:{}", r1.status)); tags.push(format!("status2:{}", r2.status));
     tags.push(if in_list { "in-list".into() } else { "outside-list".into() });
     if base.old_footers > 0 { tags.push("older-valid-footer-in-file".into()); }
+    if stale { tags.push("ptr-damage+pending-insert(F-C21-1 fixed)".into()); }
+    // the repaired HealHeaderPointer still writes when the planned target lies AHEAD of the handle's pointer
+    if r1.heal_ptr_executed || r2.heal_ptr_executed { tags.push("heal-header-pointer-EXECUTED".into()); }
     if let Ok((_, nv)) = &opened { if *nv < base.ref_nvec { tags.push("vectors-lost(F-C14-1)".into()); } }
     let input = abstract_input(base, dmgs, bits, same);
     let key = blake3::hash(format!("{}{:?}{}{}", blake3::hash(&base.bytes).to_hex(), dmgs, bits, same).as_bytes()).to_hex()[..16].to_string();
